@@ -52,7 +52,9 @@ CLASSES = ['success', 'success', 'success', 'missing-query', 'corrupt-query',
            'non-hdf5-query', 'missing-markers', 'malformed-markers',
            'marker-unknown-to-reference', 'no-usable-root', 'negative-raw',
            'wrong-normalization', 'corrupt-stats', 'worker-before',
-           'worker-mid', 'worker-after']
+           'worker-mid', 'worker-after', 'stats-without-sum',
+           'stats-without-taxonomy', 'csv-in-missing-directory',
+           'stats-tree-mismatch']
 
 
 def gen_cases(tier, seed):
@@ -181,6 +183,34 @@ def run_case(spec, work):
         b = w.stats_path.read_bytes()
         (ind / 'cstats.h5').write_bytes(b[:len(b) // 2])
         cfg['precomputed_stats']['path'] = str(ind / 'cstats.h5')
+    elif klass in ('stats-without-sum', 'stats-without-taxonomy',
+                   'stats-tree-mismatch'):
+        # structurally valid HDF5 that lacks / contradicts what the mapper
+        # needs: the error messages quote the file on a line of their own
+        import shutil as _sh
+        bad = ind / 'odd_stats.h5'
+        _sh.copy(w.stats_path, bad)
+        with h5py.File(bad, 'a') as f:
+            if klass == 'stats-without-sum':
+                del f['sum']
+            elif klass == 'stats-without-taxonomy':
+                del f['taxonomy_tree']
+            else:
+                t = json.loads(f['taxonomy_tree'][()].decode('utf-8'))
+                lf = t['hierarchy'][-1]
+                t[lf]['leaf_not_in_the_stats'] = []
+                if len(t['hierarchy']) > 1:
+                    up = t['hierarchy'][-2]
+                    first = sorted(t[up].keys())[0]
+                    t[up][first] = list(t[up][first]) + [
+                        'leaf_not_in_the_stats']
+                del f['taxonomy_tree']
+                f.create_dataset('taxonomy_tree',
+                                 data=json.dumps(t).encode('utf-8'))
+        cfg['precomputed_stats']['path'] = str(bad)
+    elif klass == 'csv-in-missing-directory':
+        cfg['csv_result_path'] = str(root / 'out' / 'no_such_dir'
+                                     / 'result.csv')
     elif klass.startswith('worker-'):
         plan = {'log_dir': str(root / 'inj'),
                 'fault': {'worker': int(rng.integers(0, 3)),
@@ -193,9 +223,10 @@ def run_case(spec, work):
     if klass == 'success' and failed:
         sig, last = oracles.exception_signature(r['traceback'],
                                                 r.get('stderr'))
-        return {'violations': [], 'counters': {},
-                'inconclusive': f'success case raised {sig}: {last}',
-                'features': None, 'nontrivial': False}
+        return {'violations': [{
+                    'sig': f'C20:mapping-raised-on-valid-input:{sig}',
+                    'msg': f'a run on valid input raised: {last}'}],
+                'counters': {}, 'features': ['raised'], 'nontrivial': True}
     if klass != 'success' and not failed:
         # e.g. a single-child root needs no markers, a fault on a worker
         # that was never dispatched: nothing to learn for this class
